@@ -52,8 +52,15 @@ impl InstallManifest {
             tags.push(tag);
         }
 
-        // Parse file entries
-        let mut entries = Vec::with_capacity(header.entry_count as usize);
+        // Parse file entries. The count comes from the header, so the
+        // pre-allocation is capped by what the remaining input can hold: an
+        // entry is at least a NUL path terminator + content key + u32 size.
+        let min_entry_size = 1 + header.ckey_length as usize + 4;
+        let remaining = data
+            .len()
+            .saturating_sub(usize::try_from(cursor.position()).unwrap_or(data.len()));
+        let mut entries =
+            Vec::with_capacity((header.entry_count as usize).min(remaining / min_entry_size));
         for _ in 0..header.entry_count {
             let entry = InstallFileEntry::read_options(
                 &mut cursor,
